@@ -30,7 +30,7 @@ from basyx.aas.adapter._generic import XML_NS_MAP
 
 NS = "{" + XML_NS_MAP["aas"] + "}"
 BASE = "/api/v3.0"
-CTYPES = ["text/plain", "application/pdf"]
+CTYPES = ["text/plain", "application/pdf", "text/plain\r\nX-Evil: 1"]   # index >= 2: cannot be sent as a header value
 CONTENTS = [b"", b"hello", b"\x00\xff bin", b"other"]
 MT = {"Property": 1, "Range": 2, "SubmodelElementCollection": 3, "SubmodelElementList": 4, "File": 5, "Blob": 6,
       "RelationshipElement": 7, "AnnotatedRelationshipElement": 8}
